@@ -216,9 +216,14 @@ class Explorer:
             if len(succs) == 2 and tc is not None and tk not in ("SwitchStmt", "CXXTryStmt"):
                 atom = _cond_atom(f, tc) if self.track_env else None
                 etest = self._enum_test(tc) if self.enum_field is not None else None
+                lit = _literal_bool(f, tc)
+                if lit is None and tc["k"] == "int":
+                    lit = tc.get("v") not in ("0", 0)
                 for taken, s in ((True, succs[0]), (False, succs[1])):
                     if s is None:
                         continue
+                    if lit is not None and taken != lit:
+                        continue      # `while (true)`, `if (false)`: the other edge is dead
                     if edge_blocked is not None and edge_blocked(tc, taken):
                         continue
                     env2 = env
